@@ -12,7 +12,26 @@ TYPES12 = [ag.INT, ag.BOOL, ag.BYTES, ag.VOID, ag.DATA, ag.TList(ag.INT), ag.TOp
            ag.TPair(ag.TAdt("Color"), ag.TList(ag.INT)), ag.TList(ag.TPair(ag.BYTES, ag.TAdt("Shape"))),
            ag.TAdt("Tagged"), ag.TAdt("Wrap", ag.INT), ag.TAdt("Wrap", ag.BYTES), ag.TOption(ag.TAdt("Tagged")), ag.TAdt("Inner", ag.TAdt("Color")),
            ag.TAdt("Rec5"), ag.TList(ag.TAdt("Rec5")), ag.TAdt("RecL"), ag.TList(ag.TAdt("RecL")), ag.TOption(ag.TAdt("RecL")),
-           ag.TAdt("Named"), ag.TList(ag.STRING), ag.TTuple(ag.STRING, ag.INT), ag.TOption(ag.STRING)]
+           ag.TAdt("Named"), ag.TList(ag.STRING), ag.TTuple(ag.STRING, ag.INT), ag.TOption(ag.STRING),
+           ag.TAdt("Solo"), ag.TList(ag.TAdt("Solo")), ag.TAdt("Solo2"), ag.TOption(ag.TAdt("Solo2")),
+           ag.TAdt("Box", ag.TPair(ag.INT, ag.INT)), ag.TAdt("Box", ag.TPair(ag.INT, ag.BYTES)), ag.TOption(ag.TAdt("Box", ag.TPair(ag.INT, ag.INT))),
+           ag.TAdt("Box", ag.TTuple(ag.INT, ag.INT)), ag.TAdt("Box", ag.TTuple(ag.INT, ag.BYTES)), ag.TList(ag.TPair(ag.INT, ag.BYTES)),
+           ag.TAdt("Box", ag.TList(ag.INT)), ag.TAdt("Box", ag.TList(ag.BYTES)), ag.TAdt("Either", ag.BOOL, ag.INT), ag.TOption(ag.BYTES)]
+
+# two types converted from Data in ONE program: instances of one generic type (or one container) that differ late in their arguments.
+# The conversion of each must be what it is alone (the code generator shares `expect` helpers between conversions by a key).
+T_ = ag
+SIBLINGS = [(T_.TAdt("Box", T_.TPair(T_.INT, T_.INT)), T_.TAdt("Box", T_.TPair(T_.INT, T_.BYTES))),
+            (T_.TOption(T_.TAdt("Box", T_.TPair(T_.INT, T_.INT))), T_.TAdt("Box", T_.TPair(T_.INT, T_.BYTES))),
+            (T_.TAdt("Box", T_.TTuple(T_.INT, T_.INT)), T_.TAdt("Box", T_.TTuple(T_.INT, T_.BYTES))),
+            (T_.TList(T_.TPair(T_.INT, T_.INT)), T_.TList(T_.TPair(T_.INT, T_.BYTES))),
+            (T_.TAdt("Box", T_.TList(T_.INT)), T_.TAdt("Box", T_.TList(T_.BYTES))),
+            (T_.TAdt("Wrap", T_.INT), T_.TAdt("Wrap", T_.BYTES)),
+            (T_.TOption(T_.INT), T_.TOption(T_.BYTES)),
+            (T_.TAdt("Either", T_.INT, T_.BOOL), T_.TAdt("Either", T_.BOOL, T_.INT)),
+            (T_.TAdt("Box", T_.INT), T_.TAdt("Box", T_.TOption(T_.BOOL))),
+            (T_.TPair(T_.INT, T_.BYTES), T_.TPair(T_.TAdt("Color"), T_.TList(T_.INT))),
+            (T_.TList(T_.TAdt("Rec5")), T_.TList(T_.TAdt("RecL")))]
 
 
 def norm_schema(s):
@@ -178,10 +197,45 @@ def c12(tier):
         ev = byid[e["id"]]
         rep.violation(ev["_ty"] + "|" + cj(ev["d"]) + "|" + why[:40], {"type": ev["_ty"], "data": ev["d"], "validate": ev["validate"], "expect": ev["expect"],
                                                                        "published_schema": ev["root"], "kind": ev["_kind"]}, why)
+    # (3) two conversions in one program: each must behave as it does alone (the single results were judged by Obs_Schema above)
+    single = {}
+    for e in events:
+        single[(e["_ty"], cj(e["d"]))] = e["expect"]
+    idx = {ag.ty_str(t): i for i, t in enumerate(types)}
+    sib_src, sib_fns, sib_meta = [T], [], []
+    for k, (ta, tb) in enumerate(SIBLINGS):
+        for order, (t1, t2) in enumerate(((ta, tb), (tb, ta))):
+            name = "both%d_%d" % (k, order)
+            sib_src.append("pub fn %s(d1: Data, d2: Data) -> Bool {\n  expect _: %s = d1\n  expect _: %s = d2\n  True\n}\n" % (name, ag.ty_str(t1), ag.ty_str(t2)))
+            d1s = [d for d, kd in datas[idx[ag.ty_str(t1)]] if kd == "conforming"][:4] + [d for d, kd in datas[idx[ag.ty_str(t2)]] if kd == "conforming"][:2]
+            d2s = [d for d, kd in datas[idx[ag.ty_str(t2)]] if kd == "conforming"][:4] + [d for d, kd in datas[idx[ag.ty_str(t1)]] if kd == "conforming"][:2]
+            args = [[a1, a2] for a1 in d1s for a2 in d2s if (ag.ty_str(t1), cj(a1)) in single and (ag.ty_str(t2), cj(a2)) in single]
+            sib_fns.append({"name": name, "args": args})
+            sib_meta.append((t1, t2, args))
+    so = vlib.run_harness("aiken_run", stdin_lines=[{"id": 0, "src": "\n".join(sib_src), "tracings": [["all", "silent"]], "fns": sib_fns}])[0]["runs"][0]
+    if so["check"] != "ok":
+        raise vlib.ToolError("C12: the two-conversion probes were rejected by the checker: %s" % json.dumps(so["check"])[:500])
+    sib_runs = 0
+    for (t1, t2, args), f in zip(sib_meta, so["fns"]):
+        if f["compile"] != "ok":
+            rep.violation("compile-panic:%s+%s" % (ag.ty_str(t1), ag.ty_str(t2)), {"types": [ag.ty_str(t1), ag.ty_str(t2)], "compile": f["compile"]}, "compiling two conversions in one program panicked")
+            continue
+        for (a1, a2), x in zip(args, f["results"]):
+            sib_runs += 1
+            post = x["post"]
+            got = "ok" if (post["o"] == "val" and post.get("c") == {"t": "bool", "v": True}) else ("panic" if post["o"] == "panic" else "fail")
+            want = "ok" if single[(ag.ty_str(t1), cj(a1))] == "ok" and single[(ag.ty_str(t2), cj(a2))] == "ok" else "fail"
+            if got != want:
+                rep.violation("siblings:%s+%s|%s|%s" % (ag.ty_str(t1), ag.ty_str(t2), cj(a1), cj(a2)),
+                              {"types": [ag.ty_str(t1), ag.ty_str(t2)], "data": [a1, a2], "together": got, "alone": [single[(ag.ty_str(t1), cj(a1))], single[(ag.ty_str(t2), cj(a2))]]},
+                              "`expect _: %s = d1  expect _: %s = d2` in one program: %s, but alone the conversions give %s / %s" %
+                              (ag.ty_str(t1), ag.ty_str(t2), got, single[(ag.ty_str(t1), cj(a1))], single[(ag.ty_str(t2), cj(a2))]))
+    if sib_runs < 200:
+        raise vlib.ToolError("C12: only %d two-conversion runs" % sib_runs)
     conf = sum(1 for e in events if e["expect"] == "ok")
     if conf < 100 or len(events) - conf < 100:
         raise vlib.ToolError("C12 vacuity: %d accepted / %d rejected data values" % (conf, len(events) - conf))
-    cov = {"states": res["states"], "transitions": res["generated"], "traces_validated_against_impl": res["ok"],
+    cov = {"states": res["states"], "transitions": res["generated"], "traces_validated_against_impl": res["ok"], "two_conversions_in_one_program_runs": sib_runs,
            "samples": [{"type": events[5]["_ty"], "data": events[5]["d"], "validate": events[5]["validate"], "expect": events[5]["expect"]},
                        {"type": events[-5]["_ty"], "data": events[-5]["d"], "validate": events[-5]["validate"], "expect": events[-5]["expect"]}],
            "evaluations": 2 * len(events), "distinct_nontrivial": len(events),
